@@ -81,7 +81,16 @@ def monitor_cancel(case, res, sem, g):
         for e in ev:
             if e["kind"] == "exec-end" and (e.get("data") or {}).get("id"):
                 produced.setdefault((e["src"], e["data"]["id"]), e["seq"])
+        deploy_attempts = set(e["src"] for e in ev if e["kind"] == "deploy-call" and ((e.get("data") or {}).get("nth") or 0) >= 2)
         for r in mon.required_refs(sem.p.outputs[out_id]):
+            if r.stage == "deploy_failed":
+                try:
+                    s = sem.p.step(r.step)
+                except KeyError:
+                    continue
+                if s.kind == "plugin" and s.src not in deploy_attempts:
+                    vs.append(mon.V("C06", "result@unproduced-dependency", "returned output %r depends on %r, but no deployment of that step was ever attempted" % (out_id, r)))
+                continue
             if r.stage != "outputs" or r.output is None:
                 continue
             try:
